@@ -45,6 +45,7 @@ unsigned char tape[TAPE];
 long clk[K + 4];          /* MODE 1: clock increments */
 long wpass[K + 1];        /* MODE 1: earliest due time reported by pass_selprep, relative */
 long wclean[K + 1];
+long slp[K + 1];          /* MODE 1: seconds that really pass while the daemon sits in the k-th select() (clamped to 0..timeout) */
 unsigned char spawnbyte[2];   /* MODE 2: concurrency limit announced by each spawner */
 unsigned int cfg[2];          /* MODE 2: configured concurrency (control files) */
 int lock_fails;               /* MODE 2: another qmail-send holds lock/sendmutex */
@@ -62,7 +63,7 @@ void sym_inputs(void)
 #ifdef REPLAY
 #include "replay_inputs.inc"
 #else
-  SYM_ARR(tape); SYM_ARR(clk); SYM_ARR(wpass); SYM_ARR(wclean); SYM_ARR(spawnbyte); SYM_ARR(cfg); SYM(lock_fails); SYM_ARR(read_result); SYM(in_exitasap);
+  SYM_ARR(tape); SYM_ARR(clk); SYM_ARR(wpass); SYM_ARR(wclean); SYM_ARR(slp); SYM_ARR(spawnbyte); SYM_ARR(cfg); SYM(lock_fails); SYM_ARR(read_result); SYM(in_exitasap);
   SYM_ARR(sig_in_select); SYM_ARR(sig_in_reread); SYM_ARR(sig_in_pqrun);
 #endif
 }
@@ -288,7 +289,10 @@ int vf_select(int nfds, fd_set *rfds, fd_set *wfds, fd_set *efds, struct timeval
 #else
   {
     /* reference: earliest due event among the subsystems, as they reported it */
-    long recent_ = recent;
+    /* "now" is the true clock (the last value time() returned plus what passed in earlier select() calls), not the
+     * daemon's cached `recent`: a daemon that computes its timeout from a stale `recent` (e.g. after select() was
+     * interrupted and time has passed) sleeps past its earliest due event */
+    long recent_ = now_val;
     long due = recent_ + SLEEP_FOREVER;
     long wp = recent_ + wpass[nselect - 1], wc = recent_ + wclean[nselect - 1];
     int pending = (tododir != 0) && !flagexitasap;
@@ -310,6 +314,14 @@ int vf_select(int nfds, fd_set *rfds, fd_set *wfds, fd_set *efds, struct timeval
       WITNESS("sleeps_until_due");
       if (flagexitasap) WITNESS("sleeps_while_draining");
     }
+    {
+      /* time passes while the daemon sleeps: 0..timeout seconds; a signal (HUP) may cut the sleep short (EINTR) */
+      long s = slp[nselect - 1];
+      if (s < 0) s = 0;
+      if (s > (long) tv->tv_sec) s = (long) tv->tv_sec;
+      now_val += s;
+      if (sig_in_select[nselect] & 1) { sighup(); if (s > 0) WITNESS("interrupted_after_sleeping"); errno = EINTR; return -1; }
+    }
     FD_ZERO(rfds);
     if (sel_trigger && (draw() & 1)) FD_SET(cur_rfd, rfds);
     return 0;
@@ -328,14 +340,14 @@ void pass_selprep(datetime_sec *wakeup)
 #if MODE == 1
   datetime_sec w;
   if (flagexitasap) return;            /* contract of the real pass_selprep */
-  w = recent + wpass[nselect < K ? nselect : K];
+  w = now_val + wpass[nselect < K ? nselect : K];
   if (*wakeup > w) *wakeup = w;
 #endif
 }
 void cleanup_selprep(datetime_sec *wakeup)
 {
 #if MODE == 1
-  datetime_sec w = recent + wclean[nselect < K ? nselect : K];
+  datetime_sec w = now_val + wclean[nselect < K ? nselect : K];
   if (*wakeup > w) *wakeup = w;
 #endif
 }
